@@ -39,6 +39,7 @@ type Gen struct {
 	vcBytes    int
 	heapRefKind map[string]string
 	epochAlloc  map[string]string
+	edgeCovers bool // development aid: one reachability query per CFG edge
 	intMode    bool // integers are mathematical (Int) with overflow obligations; otherwise bit-vectors
 	lemmaTerms []string
 	lemmaNames []string
